@@ -490,13 +490,41 @@ func incrementPaired(c *Ctx, cs counterStore, gc *GCNF, g *GC) (bool, string) {
 		nloops := 0
 		for _, x := range gc.GCs {
 			isBody := false
+			skipped := 0 // values[k:]: the first k values are handled before the loop
 			for _, a := range x.Guards {
 				if a.Op == "<" && a.Args[1].String() == "(len "+vs+")" {
 					isBody = true
 				}
+				if a.Op == "<" && a.Args[1].Op == "len" && a.Args[1].Args[0].Op == "slice" && a.Args[1].Args[0].Args[0].String() == vs && a.Args[1].Args[0].Args[2].Op == "_" {
+					if k, ok := a.Args[1].Args[0].Args[1].constInt(); ok && k > 0 {
+						isBody, skipped = true, int(k)
+					}
+				}
 			}
 			if !isBody || x.Exit.Op != "goto" {
 				continue
+			}
+			if skipped > 0 {
+				// the paths that enter this loop must have allocated exactly the skipped values' elements
+				for _, en := range gc.GCs {
+					if en.Exit.Op != "goto" || en.Exit.Leaf != x.Exit.Leaf || en.From == x.From {
+						continue
+					}
+					seen := map[string]bool{}
+					cnt := func(t *Term) bool {
+						if isNewTerm(t) && strings.HasPrefix(t.Leaf, "complit") {
+							seen[t.Leaf] = true
+						}
+						return false
+					}
+					for _, ef := range en.Effects {
+						ef.any(cnt)
+					}
+					en.Exit.any(cnt)
+					if len(seen) != skipped {
+						return false, fmt.Sprintf("the loop runs over values[%d:] but the path into it allocates %d element(s)", skipped, len(seen))
+					}
+				}
 			}
 			nloops++
 			nnew := 0
